@@ -40,13 +40,17 @@ def _calls(node: ast.AST, fname: str) -> list[ast.Call]:
     return out
 
 
-def _ints(call: ast.Call, idx: list[int]) -> tuple[int, ...]:
+def _ints(call: ast.Call, idx: list[int], globs: dict | None = None) -> tuple[int, ...]:
+    """Integer arguments of a call: literals, or module-level names bound to integers (`globs`)."""
     vals = []
     for i in idx:
         a = call.args[i]
-        if not (isinstance(a, ast.Constant) and isinstance(a.value, int)):
-            raise RuntimeError(f'argument {i} of {ast.dump(call)[:80]} is not an integer literal')
-        vals.append(int(a.value))
+        if isinstance(a, ast.Constant) and isinstance(a.value, int):
+            vals.append(int(a.value))
+        elif isinstance(a, ast.Name) and globs is not None and isinstance(globs.get(a.id), int) and not isinstance(globs.get(a.id), bool):
+            vals.append(int(globs[a.id]))
+        else:
+            raise RuntimeError(f'argument {i} of {ast.dump(call)[:80]} is not an integer literal or a module-level integer')
     return tuple(vals)
 
 
@@ -79,12 +83,12 @@ def generate() -> dict[str, str]:
 
     # -- literals
     peer_tree = ast.parse(textwrap.dedent(inspect.getsource(peer_mod.Peer)))
-    hold = _ints(_one(_calls(_fn(peer_tree, '_establish'), 'ReceiveTimer'), 'ReceiveTimer(...) in _establish'), [2, 3])
+    hold = _ints(_one(_calls(_fn(peer_tree, '_establish'), 'ReceiveTimer'), 'ReceiveTimer(...) in _establish'), [2, 3], vars(peer_mod))
     ro = _fn(peer_tree, '_read_open')
     handlers = [h for h in ast.walk(ro) if isinstance(h, ast.ExceptHandler)]
     h = _one(handlers, 'except handler in _read_open')
     assert 'TimeoutError' in ast.dump(h.type), ast.dump(h.type)
-    openwait = _ints(_one(_calls(h, 'Notify'), 'Notify in _read_open handler'), [0, 1])
+    openwait = _ints(_one(_calls(h, 'Notify'), 'Notify in _read_open handler'), [0, 1], vars(peer_mod))
     wf = _one(_calls(ro, 'wait_for'), 'wait_for in _read_open')
     kw = {k.arg: k.value for k in wf.keywords}
     assert isinstance(kw.get('timeout'), ast.Name) and kw['timeout'].id == 'wait', ast.dump(wf)
@@ -116,17 +120,17 @@ def generate() -> dict[str, str]:
         assert 'negotiated' in ast.dump(_one(asg, f'assignment to {src_var}').value) and 'holdtime' in ast.dump(asg[0].value)
         hk = _one([x for x in ast.walk(rk) if isinstance(x, ast.ExceptHandler)], 'except handler in _read_ka')
         assert 'TimeoutError' in ast.dump(hk.type), ast.dump(hk.type)
-        oc_notify = _ints(_one(_calls(hk, 'Notify'), 'Notify in _read_ka handler'), [0, 1])
+        oc_notify = _ints(_one(_calls(hk, 'Notify'), 'Notify in _read_ka handler'), [0, 1], vars(peer_mod))
         oc_has_timer = True
     from exabgp.reactor import protocol as proto_mod
 
     proto_tree = ast.parse(textwrap.dedent(inspect.getsource(proto_mod.Protocol)))
-    oc_unexpected = _ints(_one(_calls(_fn(proto_tree, 'read_keepalive'), 'Notify'), 'Notify in read_keepalive'), [0, 1])
+    oc_unexpected = _ints(_one(_calls(_fn(proto_tree, 'read_keepalive'), 'Notify'), 'Notify in read_keepalive'), [0, 1], vars(proto_mod))
 
     timer_tree = ast.parse(inspect.getsource(timer_mod))
-    h0ka = _ints(_one(_calls(_fn(timer_tree, 'check_ka'), 'Notify'), 'Notify in check_ka'), [0, 1])
+    h0ka = _ints(_one(_calls(_fn(timer_tree, 'check_ka'), 'Notify'), 'Notify in check_ka'), [0, 1], vars(timer_mod))
     ka_tree = ast.parse(inspect.getsource(ka_mod))
-    kanet = _ints(_one(_calls(_fn(ka_tree, 'send_if_needed'), 'Notify'), 'Notify in send_if_needed'), [0, 1])
+    kanet = _ints(_one(_calls(_fn(ka_tree, 'send_if_needed'), 'Notify'), 'Notify in send_if_needed'), [0, 1], vars(ka_mod))
 
     # default of the openwait option (class-level option descriptor default)
     default_wait = None
